@@ -2,7 +2,7 @@
    added to the graph (so each stage weight enters the report at most once: C20_progress applies). *)
 From Coq Require Import ZArith List Bool Lia ZifyBool.
 Import ListNotations.
-Require Import V.Weights.Model.
+Require Import V.Weights.Model V.Weights.Proofs.
 Open Scope Z_scope.
 
 Lemma in_transit_active nodes s : In s (stages_in_transit nodes) <-> stage_active nodes s = true.
@@ -30,4 +30,89 @@ Proof.
     unfold stages_finished. rewrite filter_In, E. intros [_ H]; discriminate.
   - left. split; [unfold stages_finished; apply filter_In; split; [assumption|rewrite E; reflexivity]|].
     rewrite in_transit_active, E. discriminate.
+Qed.
+
+(* ---- a restart from a later stage: the skipped stages are finished stages *)
+Lemma restart_active start nodes s :
+  stage_active (restart_nodes start nodes) s = stage_active nodes s && (start <=? s).
+Proof.
+  unfold stage_active, restart_nodes. induction nodes as [|[t a] l IH]; [reflexivity|].
+  cbn [map existsb fst snd]. rewrite IH. destruct (Z.eqb_spec t s) as [->|_]; cbn [andb orb]; [|reflexivity].
+  destruct a, (start <=? s), (existsb _ l); reflexivity.
+Qed.
+
+Lemma restart_skipped_finished start stages nodes s : In s stages -> s < start ->
+  In s (ctl_finished start stages nodes) /\ ~ In s (ctl_in_transit start nodes).
+Proof.
+  intros Hs Hlt. unfold ctl_finished, ctl_in_transit.
+  assert (E : stage_active (restart_nodes start nodes) s = false).
+  { rewrite restart_active. replace (start <=? s) with false by lia. apply andb_false_r. }
+  split.
+  - unfold stages_finished. apply filter_In. split; [assumption|rewrite E; reflexivity].
+  - rewrite in_transit_active, E. discriminate.
+Qed.
+
+Lemma restart_later_unchanged start stages nodes s : start <= s ->
+  (In s (ctl_finished start stages nodes) <-> In s (stages_finished stages nodes)) /\
+  (In s (ctl_in_transit start nodes) <-> In s (stages_in_transit nodes)).
+Proof.
+  intros Hle. unfold ctl_finished, ctl_in_transit.
+  assert (E : stage_active (restart_nodes start nodes) s = stage_active nodes s).
+  { rewrite restart_active. replace (start <=? s) with true by lia. apply andb_true_r. }
+  split.
+  - unfold stages_finished. rewrite !filter_In, E. reflexivity.
+  - rewrite !in_transit_active, E. reflexivity.
+Qed.
+
+Lemma restart_nothing_skipped start nodes :
+  Forall (fun nb => start <= fst nb) nodes -> restart_nodes start nodes = nodes.
+Proof.
+  unfold restart_nodes. induction 1 as [|[t a] l Ht _ IH]; [reflexivity|].
+  cbn [map fst snd] in *. rewrite IH. replace (start <=? t) with true by lia. rewrite andb_true_r. reflexivity.
+Qed.
+
+Lemma restart_ordinary_launch stages nodes : Forall (fun nb => 0 <= fst nb) nodes ->
+  ctl_finished 0 stages nodes = stages_finished stages nodes /\ ctl_in_transit 0 nodes = stages_in_transit nodes.
+Proof.
+  intros H. unfold ctl_finished, ctl_in_transit. rewrite (restart_nothing_skipped 0 nodes H). split; reflexivity.
+Qed.
+
+(* the report: the weights of the k skipped stages are counted in full, the rest as usual *)
+Lemma total_skipped D k : forall ws prog,
+  total ws (restart_prog D k prog) = D * sumZ (firstn k ws) + total (skipn k ws) prog.
+Proof.
+  unfold restart_prog. induction k as [|k IH]; intros ws prog.
+  - cbn [repeat app firstn skipn sumZ fold_right]. lia.
+  - destruct ws as [|w ws]; [cbn; lia|].
+    cbn [repeat app total firstn skipn sumZ fold_right]. fold (sumZ (firstn k ws)). rewrite IH. lia.
+Qed.
+
+Lemma Forall_firstn {A} (P : A -> Prop) k : forall l, Forall P l -> Forall P (firstn k l).
+Proof. induction k as [|k IH]; intros l H; [constructor|]. destruct H; cbn; [constructor|constructor; auto]. Qed.
+Lemma Forall_skipn {A} (P : A -> Prop) k : forall l, Forall P l -> Forall P (skipn k l).
+Proof. induction k as [|k IH]; intros l H; [assumption|]. destruct H; cbn; [constructor|auto]. Qed.
+Lemma sumZ_firstn_skipn k ws : sumZ ws = sumZ (firstn k ws) + sumZ (skipn k ws).
+Proof. rewrite <- sumZ_app, firstn_skipn. reflexivity. Qed.
+
+Lemma restart_total D k ws prog :
+  0 <= D -> Forall (fun w => 0 <= w) ws -> Forall (fun a => 0 <= a <= D) prog ->
+  (length prog + k = length ws)%nat ->
+  D * sumZ (firstn k ws) <= total ws (restart_prog D k prog) <= D * sumZ ws /\
+  total ws (restart_prog D k (repeat D (length ws - k))) = D * sumZ ws.
+Proof.
+  intros HD Hw Hp Hl. split.
+  - rewrite total_skipped.
+    pose proof (total_bounds D (skipn k ws) prog HD (Forall_skipn _ k ws Hw) Hp
+                  ltac:(rewrite skipn_length; lia)) as Hb.
+    rewrite (sumZ_firstn_skipn k ws). lia.
+  - unfold restart_prog. rewrite <- repeat_app. replace (k + (length ws - k))%nat with (length ws) by lia.
+    apply total_complete.
+Qed.
+
+(* the correspondence of a run launched from stage 0 is the one that was checked before (check_scase) *)
+Lemma check_rcase_launch st nodes obs : Forall (fun nb => 0 <= fst nb) nodes ->
+  check_rcase (((0, st), nodes), obs) = check_scase ((st, nodes), obs).
+Proof.
+  intros H. unfold check_rcase, check_scase, ctl_finished, ctl_in_transit. cbn [fst snd].
+  rewrite (restart_nothing_skipped 0 nodes H). reflexivity.
 Qed.
